@@ -174,7 +174,9 @@ def common(ctx):
         "Plonky2's primitive relations (split_low_high, split_le, is_equal) as transcribed in Gadgets.tla; FRI soundness "
         "(the gadget circuits are built without proof-of-work grinding: 84 bits of query soundness)",
         "the step from the miniature fields P(2)=13, P(4)=241 to P(32) rests on the shared structure of the family, on "
-        "replaying every model input at 64 bits (bit-block embedding) and on the landmark/random real-domain traces",
+        "replaying every model input at 64 bits (bit-block embedding), on the landmark/random real-domain traces, and (thorough tier) on "
+        "the TLAPS-proved lemmas of specs/GoldilocksLemmas.tla at the production constants: the canonical 32-bit split of a field "
+        "element exists and is unique (no alias), never wraps, the borrow bit decides a < b, halves order = numeric order",
     ]
 
 
@@ -191,6 +193,7 @@ def check_c30(ctx):
             return core.finish(ctx)
         l4 = [c for c in l4 if c["g"] in ("lt", "enf")]
         spec_mutants(ctx, [("lt", "MC_Gadgets_mutWrap.cfg")])
+        core.tlaps_lemmas(ctx)
     n = replay(ctx, 2, lines, attack_every=2 if ctx.quick else 1)
     if not ctx.quick and not ctx.violations and not ctx.replay:
         # K=4: honest on a seeded third of the inputs, overrides on every 40th
